@@ -145,11 +145,12 @@ class Run:
             shutil.rmtree(md, ignore_errors=True)
         return p.returncode, p.stdout
 
-    def mc(self, module, cfg, workers=NCPU, timeout=1800, heap="12g", expect_ok=True, coverage=False, env=None):
+    def mc(self, module, cfg, workers=NCPU, timeout=1800, heap="12g", expect_ok=True, coverage=False, env=None, nocov=False):
         """Model-check a bounded configuration.  A violated invariant of a pure
         model is an infrastructure failure (the reference model is wrong) unless
         the caller asks for the raw result (models fed with tables from the code)."""
         t = time.time()
+        coverage = coverage or (self.tier == "thorough" and not nocov and os.environ.get("VERIF_NO_COVERAGE") is None)
         rc, out = self.tlc(module, cfg, workers=workers, timeout=timeout, heap=heap, env=env,
                            extra=(["-coverage", "1"] if coverage else []), tag="mc")
         m = None
@@ -162,6 +163,10 @@ class Run:
         dist = int(m.group(2)) if m else 0
         info = {"module": module, "cfg": cfg, "generated": gen, "distinct": dist, "ok": ok,
                 "wall_s": round(time.time() - t, 1)}
+        if coverage:
+            # TLC's per-action coverage: "<Action line ..., col ... of module M>: distinct:generated"; an action never taken is vacuous
+            never = re.findall(r"^<(\w+) line \d+, col \d+ to line \d+, col \d+ of module \w+>: 0:0$", out, re.M)
+            info["actions_never_taken"] = sorted(set(never))
         self.cov["mc_runs"].append(info)
         self.cov["states"] += dist
         self.cov["transitions"] += gen
